@@ -321,7 +321,14 @@ type TCP struct {
 }
 
 func (s *Server) ListenTCP() (*TCP, error) {
-	l, err := net.Listen("tcp", "127.0.0.1:0")
+	var l net.Listener
+	var err error
+	for i := 0; i < 100; i++ { // a loopback port may be unavailable for a moment under heavy TIME_WAIT load
+		if l, err = net.Listen("tcp", "127.0.0.1:0"); err == nil {
+			break
+		}
+		time.Sleep(100 * time.Millisecond)
+	}
 	if err != nil {
 		return nil, err
 	}
